@@ -152,22 +152,22 @@ ADDENDA = {
     "C01": " GenCtl has 19 construct kinds incl. loops whose start / end / step variables are reassigned by the body; GenNames.tla adds 51 identifiers that begin / end with a keyword x 8 roles." + VMSTAGE,
     "C07": " GenClos now has 9 closure instances (incl. captured parameter, closures made in loop iterations and inside a method) x 5 closure kinds; GenCapture.tla adds the exhaustive product of 36 syntactic positions of the single use of a captured variable (incl. later brackets of a multi-bracket index), 10 `modify` targets (incl. a closure, an alias type), 5 callback drivers (map / filter), 12 receiver / assignment-target positions and 7 write forms of the captured variable (`+=`, `-=`, `*=`, `modify`, in a loop / if / nested literal) under callers that own a same-named variable." + VMSTAGE,
     "C08": " GenObj also covers a second module declaring a class of the same name, `Self(..)` in an imported class, list sharing between objects, non-commutative op-assignment on a string field and reads whose right neighbour writes the field." + VMSTAGE,
-    "C11": " GenMod also enumerates type-only imports (`import type T from m`), type exports, export-less modules and sub-directory layouts (modules k..n in `sub/`, imported as `sub/m`, `./sub/m`, `m`, `./m`)." + VMSTAGE,
+    "C11": " GenMod also enumerates type-only imports (`import type T from m`), type exports, export-less modules and sub-directory layouts (modules k..n in `sub/`, imported as `sub/m`, `./sub/m`, `m`, `./m`); the second module's name ends with the third module's name (`xm3` / `m3`)." + VMSTAGE,
     "C12": " GenOpt carriers: variable, parameter, function result, list element, object field, result of a built-in (a boxed optional), boxed optional stored in an element / field; 20 uses incl. nested overwrite by `?=`, `or` in an escaped closure, nil on the left of a comparison, the value of `or` / `get` used as an operand." + VMSTAGE,
-    "C13": " GenHeap element types: int, str, optional, nested list; also join aliasing, map literals built from list elements, results of filter / map kept and mutated (also of an empty receiver), element-wise equality of boxed optionals; (re-binding, mutation) pairs have a reserved share of the pair budget." + VMSTAGE,
-    "C15": " GenOrder leaves also read a list element / object field (ELEM, FLD) while a later sibling writes that very slot (PUT, FBUMP); roots include a map literal with a repeated key, a method call and a zero-argument recursive `self()` as a later list element / argument / operand." + VMSTAGE,
-    "C17": " GenFail has 20 failure kinds incl. op-assignment with a zero divisor, built-in range errors (substring / delete / insert / radix) and failures on one source line after multi-byte text (the assert column is judged exactly)." + VMSTAGE,
+    "C13": " GenHeap element types: int, str, optional, nested list; also join aliasing, map literals built from list elements, results of filter / map kept and mutated (also of an empty receiver), element-wise equality of boxed optionals; a slot overwritten with a different list of equal contents; (re-binding, mutation) pairs have a reserved share of the pair budget." + VMSTAGE,
+    "C15": " GenOrder leaves also read a list element / object field (ELEM, FLD) while a later sibling writes that very slot (PUT, FBUMP); roots include a map literal with a repeated key, a method call and a zero-argument recursive `self()` as a later list element / argument / operand; bool leaves read from a list element / field; `(mkl(n))[ix()]`, `cur[swp()]` (the subscript re-points the indexed variable); `a || self.noisy()` / `a && self.noisy()` inside a method." + VMSTAGE,
+    "C17": " GenFail has 20 failure kinds incl. op-assignment with a zero divisor, built-in range errors (substring / delete / insert / radix) and failures on one source line after multi-byte text (the assert column is judged exactly), and range errors on a 50-character receiver with multi-byte characters around byte 32." + VMSTAGE,
     "C02": " Every catalogue expression is evaluated at module level, inside a function literal (captured receivers) and inside a method; int-keyed maps and a mixed fixed-shape list were added; composed programs (the GenCtl pool and the example corpus) are judged for dynamic type errors.",
     "C03": " The fixed-fault list has 42 entries (optional index, function types differing in the optionality of the result, typed / untyped `modify` mismatch, `bool?` conditions, growable-list methods on mixed fixed lists, `typeof` as a name) and a cross-module kind (a same-named class of another module at 5 typed sites, a non-exported class reached through the module or a name import).",
     "C05": " Operands are read from variables, list elements or object fields (deterministic rotation) and the operand slots are read again after the operator: they must be unchanged.",
-    "C06": " Negated literals (incl. -0.0) are leaves of the exhaustive level; an unsuffixed literal beyond the int range (2147483648) is in the literal set. Besides the folded and the unfolded rendering every tree is rendered half-folded (every other literal through a variable, both parities): same value and kind. The unfolded renderings are also trace-validated against the value machine spec/MSVMV.tla, whose numeric instructions are MSNum (spec/TraceVMV.tla).",
+    "C06": " Negated literals (incl. -0.0) are leaves of the exhaustive level; an unsuffixed literal beyond the int range (2147483648) is in the literal set. The operator directly below the root may also be a comparison (< <= > >= == !=, result bool). Results outside the tower model (a float product that is not finite) are judged by agreement of the renderings alone. Besides the folded and the unfolded rendering every tree is rendered half-folded (every other literal through a variable, both parities): same value and kind. The unfolded renderings are also trace-validated against the value machine spec/MSVMV.tla, whose numeric instructions are MSNum (spec/TraceVMV.tla).",
     "C09": " The example corpus is additionally validated against the value machine spec/MSVMV.tla (per-instruction values, spec/TraceVMV.tla).",
     "C10": " 15 declaration kinds (incl. `const [a, b] = ..`, a const named like a module, a mutable name re-declared const, a module reached through another name) x 19 write forms (incl. one-name unpack, parenthesised paths `(p.ws)[k] += v`, `(ps[k]).v *= v`, `import` re-binding the name).",
     "C16": " GenTotal.tla adds two exhaustive products: 147 boundary / ill-formed / scaling expressions (incl. function-literal arguments, non-ASCII string literals, `Self` outside a class) x 31 syntactic contexts (incl. constructor, closure in a method, argument of a recursive `self(..)` call), and 19 import path shapes x 4 import forms x 7 placements.",
-    "C19": " Library names: an absolute path and a relative name containing a backslash.",
+    "C19": " Library names: an absolute path, a relative name containing a backslash, and a bare file name found through the loader search path (LD_LIBRARY_PATH).",
     "C20": " Non-ASCII names are percent-encoded in the specification (TLC's on-disk state queue does not round-trip them).",
-    "C04": " The codec alphabet contains NBSP (whitespace for char::is_whitespace, not for ASCII whitespace) and form feed; every program is also compiled over a longer pre-existing output file.",
-    "C18": " The codec alphabet contains NBSP and form feed.",
+    "C04": " The codec alphabet contains NBSP (whitespace for char::is_whitespace, not for ASCII whitespace) and form feed; every program is also compiled over a longer pre-existing output file. Whole programs: the example corpus, generated control-flow programs and programs of the other feature areas (closures, identifiers, objects incl. two-module projects, lists / maps, evaluation order) from the generator specifications; captured names of make_function are compared as a set.",
+    "C18": " The codec alphabet contains NBSP and form feed; whole programs as for C04 (single-file ones).",
 }
 
 NOT_APPLICABLE = {}
